@@ -271,6 +271,30 @@ def run(ctx, res):
         if changed or len(other):
             res.fail("C08: editing the parameters of one parsed property changed the parameters of other properties (or of a "
                      "freshly parsed line)", edit, observed=[changed, obs_params(other)])
+    # ---- a parsed parameter map belongs to the caller: editing its value lists in place does not change what the same
+    #      text parses to later (directly or as part of a content line)
+    for ptxt in ["MEMBER=a,b", 'MEMBER="mailto:a@x","mailto:b@x";ROLE=r', "X-L=1,2,3;X-S=one", 'DELEGATED-TO="a,b",c;CN=x',
+                 "X-L=a,a", "X-E=,x"]:
+        for route in ("from_ical", "parts"):
+            def parse():
+                return Parameters.from_ical(ptxt) if route == "from_ical" else Contentline("ATTENDEE;" + ptxt + ":mailto:z@x").parts()[1]
+            try:
+                first = parse()
+            except ValueError:
+                continue
+            want = obs_params(first)
+            for v in list(first.values()):
+                if isinstance(v, list):
+                    v.append("zz")
+                    v.reverse()
+            first["X-ADDED"] = "1"
+            res.evaluations += 1
+            for route2 in ("from_ical", "parts"):
+                route = route2
+                got = obs_params(parse())
+                if got != want:
+                    res.fail("C08: parsing the same parameter text again gives other parameters after the caller edited the "
+                             "first result in place", [ptxt, route2], observed=got, expected=want)
     # ---- parameter values that are typed property values (rendered with their own to_ical, then quoted as needed)
     from icalendar.prop import vInt, vBoolean, vCalAddress, vUri, vText
     typed = [({"X-N": vInt(5)}, "X-N=5", {"X-N": "5"}), ({"RSVP": vBoolean(True)}, "RSVP=TRUE", {"RSVP": "TRUE"}),
